@@ -19,7 +19,26 @@ def run(tier, rep):
     if not tlc_ok(r, "DeriveCheck"):
         rep.violation(f"model:DeriveCheck:{r.violated}", {"trace": r.trace[-1:]})
     progs = fam_c18.programs(tier)
-    cases, counts = famcheck.run_families("C18", rep, progs, "c18", goinvalid_is_violation=True)
+    def same_meaning(exp, got):
+        """outputs are lines; a to_json line may spell the same JSON value differently (\\u00e9 for é): the property asks for well-formed
+        JSON that decodes back to the value, not for one spelling.  Non-JSON lines (to_string) must be equal byte for byte."""
+        import json as _json
+        a, b = exp.split(b"\n"), got.split(b"\n")
+        if len(a) != len(b):
+            return False
+        for x, y in zip(a, b):
+            if x == y:
+                continue
+            try:
+                if _json.loads(x.decode("utf-8")) != _json.loads(y.decode("utf-8")):
+                    return False
+            except (ValueError, UnicodeDecodeError):
+                return False
+        return True
+    cases, counts = famcheck.run_families("C18", rep, progs, "c18", goinvalid_is_violation=True, same_meaning=same_meaning)
+    counts = {}
+    for c_ in cases:
+        counts[c_["cls"]] = counts.get(c_["cls"], 0) + 1
     late = 0
     for c in cases:
         if c["ident"].startswith("c18:underivable:") and c["cls"] == "rejected":
